@@ -301,6 +301,16 @@ pub fn runner_main(table: &[(&'static str, CaseFn)]) {
     let with_indented = args.iter().any(|a| a == "--indented");
     std::panic::set_hook(Box::new(|_| {}));
     let map: std::collections::HashMap<&str, CaseFn> = table.iter().cloned().collect();
+    if let Some(i) = args.iter().position(|a| a == "--threads") {
+        let n: usize = args[i + 1].parse().expect("thread count");
+        let rounds: usize = args
+            .iter()
+            .position(|a| a == "--rounds")
+            .map(|j| args[j + 1].parse().expect("rounds"))
+            .unwrap_or(1);
+        threads_main(&map, &args[1], &args[2], n, rounds);
+        return;
+    }
     let f = std::fs::File::open(&args[1]).expect("case file");
     let mut out = std::fs::OpenOptions::new()
         .create(true)
@@ -324,5 +334,97 @@ pub fn runner_main(table: &[(&'static str, CaseFn)]) {
         };
         let _ = writeln!(out, "{}", js);
         let _ = out.flush();
+    }
+}
+
+
+/// C20: the same cases parsed concurrently from `n` threads (released together by a barrier, each
+/// walking the case list in its own order, `rounds` times) must give exactly the outcome - result,
+/// tracer callbacks, recorded advances - of a sequential run.  Writes one JSON summary line, then the
+/// outcomes of every thread's first round (for trace validation).
+fn threads_main(map: &std::collections::HashMap<&str, CaseFn>, cases: &str, out: &str, n: usize, rounds: usize) {
+    use std::io::Write;
+    let list: Vec<(String, String)> = std::fs::read_to_string(cases)
+        .expect("case file")
+        .lines()
+        .map(|l| {
+            let mut it = l.split('\t');
+            (it.next().unwrap().to_string(), unhex(it.next().unwrap_or("")))
+        })
+        .collect();
+    let run = |i: usize| -> String {
+        let (g, inp) = &list[i];
+        match map.get(g.as_str()) {
+            Some(f) => f(g, inp, false),
+            None => String::from("{\"missing\":true}"),
+        }
+    };
+    let seq: Vec<String> = (0..list.len()).map(run).collect();
+    let barrier = std::sync::Barrier::new(n);
+    let len = list.len();
+    let results: Vec<(Vec<(usize, String)>, Vec<(usize, String)>)> = std::thread::scope(|s| {
+        let handles: Vec<_> = (0..n)
+            .map(|t| {
+                let (seq, barrier, run) = (&seq, &barrier, &run);
+                s.spawn(move || {
+                    let mut mismatches = Vec::new();
+                    let mut first_round = Vec::new();
+                    barrier.wait();
+                    for r in 0..rounds {
+                        // a different walk through the cases per thread and round
+                        let start = (t * 7919 + r * 104729) % len.max(1);
+                        let mut step = 1 + 2 * ((t + r) % 50);
+                        while gcd(step, len.max(1)) != 1 {
+                            step += 1;
+                        }
+                        for j in 0..len {
+                            let i = (start + step * j) % len;
+                            let js = run(i);
+                            if js != seq[i] && mismatches.len() < 5 {
+                                mismatches.push((i, js.clone()));
+                            }
+                            if r == 0 && first_round.len() < 400 {
+                                first_round.push((i, js));
+                            }
+                        }
+                    }
+                    (mismatches, first_round)
+                })
+            })
+            .collect();
+        handles.into_iter().map(|h| h.join().expect("thread")).collect()
+    });
+    let mut f = std::io::BufWriter::new(std::fs::File::create(out).expect("out file"));
+    let mut mm = String::from("[");
+    for (t, (mis, _)) in results.iter().enumerate() {
+        for (i, js) in mis {
+            if mm.len() > 1 {
+                mm.push(',');
+            }
+            let _ = write!(mm, "{{\"thread\":{},\"case\":{},\"seq\":{},\"par\":{}}}", t, i, seq[*i], js);
+        }
+    }
+    mm.push(']');
+    let _ = writeln!(
+        f,
+        "{{\"threads\":{},\"rounds\":{},\"cases\":{},\"parses\":{},\"mismatches\":{}}}",
+        n,
+        rounds,
+        len,
+        n * rounds * len,
+        mm
+    );
+    for (t, (_, first)) in results.iter().enumerate() {
+        for (i, js) in first {
+            let _ = writeln!(f, "{{\"thread\":{},\"case\":{},\"outcome\":{}}}", t, i, js);
+        }
+    }
+}
+
+fn gcd(a: usize, b: usize) -> usize {
+    if b == 0 {
+        a
+    } else {
+        gcd(b, a % b)
     }
 }
